@@ -75,6 +75,20 @@ def iterate(rec, cid, desc, r):
     return pts, False
 
 
+def given(rec, cid, desc, r):
+    """For recurrences whose ITERATION is a recorded C12 finding: hand the series to the specification as given (event
+    IterGiven, not judged) so that what is stated RELATIVE to it - queries (C13), shifts and equality (C14) - is still judged."""
+    forward = not (desc["fmt"] == 4 and desc["n"] == 0)
+    pts, complete = [], True
+    for q in r:
+        pts.append(q)
+        if len(pts) >= (desc["n"] + 2 if desc["n"] else UNBOUNDED_TAKE):
+            complete = False
+            break
+    rec.ev("IterGiven", cid, inp=inp_of(desc, r), forward=forward, pts=[proj_tp(q) for q in pts], complete=complete)
+    return pts, complete
+
+
 def take(r, k):
     out = []
     for p in r:
@@ -124,6 +138,14 @@ def _same_zone_shift(m, r2, secs):
     n2, sod2 = divmod(n * DAY + sod + secs, DAY)
     y, a, b = R.date_of(m, r2["rep"], n2)
     return tp_rec(r2["rep"], y, a, b, sod=sod2, prec="hms", zh=r2["zh"], zm=r2["zm"], xd=r2.get("xd", 0))
+
+
+def as_2400(m, r2):
+    """A point record at local midnight written as 24:00 of the previous day (same representation and offset)."""
+    n = {"cal": lambda r: R.daynum(m, r["y"], r["a"], r["b"]), "ord": lambda r: R.year_start(m, r["y"]) + r["a"] - 1,
+         "week": lambda r: R.from_week(m, r["y"], r["a"], r["b"])}[r2["rep"]](r2)
+    y, a, b = R.date_of(m, r2["rep"], n - 1)
+    return tp_rec(r2["rep"], y, a, b, sod=DAY, prec="hms", zh=r2["zh"], zm=r2["zm"], xd=r2.get("xd", 0))
 
 
 def float_class(desc):
